@@ -105,7 +105,8 @@ def generated_project(rng, name):
         if shared and rng.chance(0.5):
             # chain: a later shared file imports an earlier one
             prev = shared[-1]
-            text = re.sub(r"^(proto %s;?[ \t]*\r?\n)" % re.escape(s.name), lambda mm: mm.group(1) + '\nimport "%s"\n' % prev[0], text, count=1, flags=re.M)
+            how = rng.choice([prev[0], "./" + prev[0], "../" + name + "/" + prev[0]])
+            text = re.sub(r"^(proto %s;?[ \t]*\r?\n)" % re.escape(s.name), lambda mm: mm.group(1) + '\nimport "%s"\n' % how, text, count=1, flags=re.M)
         files[fname] = text
         shared.append((fname, s))
     main, _ = schemagen.generate(rng.sub("main"), fleet=False, name=rng.choice(["pkt", "main_proto", "drone"]))
@@ -115,7 +116,7 @@ def generated_project(rng, name):
         as_name = None
         if rng.chance(0.4):
             as_name = "im" + schemagen.letters(i)
-        spelled = rng.choice([fname, "./" + fname])
+        spelled = rng.choice([fname, fname, "./" + fname, "../" + name + "/" + fname, "out/../" + fname, "./././" + fname])
         imports.append("import %s\"%s\"" % ((as_name + " ") if as_name else "", spelled))
         ns = as_name or s.name
         fields = []
@@ -277,7 +278,7 @@ def gen_farm_plan(seed: int, mode: str, n: int = 0):
         op = {"op": "cli", "argv": argv, "outdir_abs": "/w/pa/out"}
         if keyed and mode == "c18":
             kid = h("farm", texts[k], lang)
-            keys.setdefault(kid, {"api": "cli", "files": {name: texts[k]}, "extras": False, "main": name, "lang": lang, "opt": False, "filter": None, "endian": "both"})
+            keys.setdefault(kid, {"api": "cli", "dirname": "pa", "files": {name: texts[k]}, "extras": False, "main": name, "lang": lang, "opt": False, "filter": None, "endian": "both"})
             op["key"] = kid
         ops.append(op)
 
@@ -361,6 +362,8 @@ def gen_plan(seed: int, mode: str, scale: int = 1):
             for _ in range(er.randint(1, 2)):
                 tgt = er.choice(sorted(files))
                 files[tgt] = compatible_edit(er, files[tgt])
+            # imports spelled through the project directory must point into the variant's own directory
+            files = {f: t.replace("../" + q.name + "/", "../" + name + "/") for f, t in files.items()}
             p = Project(name, files, q.main, "variant-of:" + q.origin)
             p.extras = q.extras
         if same_names and projects and rng.chance(0.5) and mode == "c18":
@@ -387,9 +390,10 @@ def gen_plan(seed: int, mode: str, scale: int = 1):
     def key_for(p: Project, lang, opt, filt, endian, check=False):
         if mode != "c18" or not keyable(p):
             return None
-        kid = h(p.content_hash(), p.main, lang, bool(opt), filt, endian, check)
+        kid = h(p.content_hash(), p.name, p.main, lang, bool(opt), filt, endian, check)
         if kid not in keys:
             keys[kid] = {
+                "dirname": p.name,
                 "files": dict(p.files),
                 "extras": p.extras,
                 "main": p.main,
@@ -496,9 +500,9 @@ def gen_plan(seed: int, mode: str, scale: int = 1):
             else:
                 op = {"op": "parse", "sid": sid, "path": path, "trad": trad}
             if mode == "c18" and not held.get("nokey") and keyable(snap):
-                kid = "P" + h(snap.content_hash(), snap.main, trad)
+                kid = "P" + h(snap.content_hash(), snap.name, snap.main, trad)
                 if kid not in keys:
-                    keys[kid] = {"api": "parse", "files": dict(snap.files), "extras": snap.extras, "main": snap.main, "trad": trad}
+                    keys[kid] = {"api": "parse", "dirname": snap.name, "files": dict(snap.files), "extras": snap.extras, "main": snap.main, "trad": trad}
                 op["key"] = kid
             ops.append(op)
 
